@@ -375,7 +375,12 @@ func (c *SpecCtx) field(v SVal, name string) SVal {
 	for i := 0; i < st.NumFields(); i++ {
 		if st.Field(i).Name() == name {
 			if isPtr {
-				return SVal{fv.loadField(c.st, v.t, t, i), st.Field(i).Type()}
+				ft := fv.loadField(c.st, v.t, t, i)
+				if _, ok := fv.eng.nonNilFields[fmt.Sprintf("H|%s|%s", typeKey(t), name)]; ok && !fv.noSpecAssume && !strings.Contains(v.t, "q!") {
+					// field invariant: also available to specifications
+					fv.assume(c.st, implies(sx("distinct", v.t, "0"), fv.nonNilTerm(ft, st.Field(i).Type())))
+				}
+				return SVal{ft, st.Field(i).Type()}
 			}
 			return SVal{sx(fmt.Sprintf("%s.%d", fv.u.sortOf(t), i), v.t), st.Field(i).Type()}
 		}
